@@ -150,6 +150,17 @@ def random_ranking(rng, n, miss):
     return random_order(rng, [e for e in range(1, n + 1) if rng.random() >= miss])
 
 
+def _larger_cases(rng, count):
+    from . import algo_common as ac
+    out = []
+    for _ in range(count):
+        D = ac.larger_dataset(rng)
+        U = grids.universe(D)
+        E = U + list(range(13, 13 + rng.randint(0, 2)))
+        out.append({"D": D, "c": random_order(rng, E, tie=rng.choice([.2, .6])), "naming": rng.choice(["ints", "letters"])})
+    return out
+
+
 def models(tier):
     return [Model("MC_Kemeny", "MC_Kemeny_3.cfg" if tier == "quick" else "MC_Kemeny_3b.cfg",
                   "score definition: linear in the penalties (Score = Counts . penalties), equals the sum read "
@@ -179,6 +190,8 @@ def stages(tier, rng, only=None):
         out.append(Stage("grid3x2", "Trace_Score", run_case, g3(2), _nontrivial, _init, aux=aux))
         out.append(Stage("random", "Trace_Score", run_case, lambda: _random_cases(rng, 1500),
                          _nontrivial, _init, aux=aux))
+        out.append(Stage("larger", "Trace_Score", run_case, lambda: _larger_cases(rng, 300), _nontrivial, _init,
+                         aux=aux))
     else:
         def cover(U, plist, foreign):
             return [c for c in plist if set(grids.dom(c)) in (U, U | {foreign})]
@@ -195,6 +208,8 @@ def stages(tier, rng, only=None):
                          _nontrivial, _init, aux=aux))
         out.append(Stage("random", "Trace_Score", run_case, lambda: _random_cases(rng, 20000),
                          _nontrivial, _init, aux=aux))
+        out.append(Stage("larger", "Trace_Score", run_case, lambda: _larger_cases(rng, 3000), _nontrivial, _init,
+                         aux=aux))
     if only:
         out = [s for s in out if s.name == only]
     return out
